@@ -71,6 +71,13 @@ class C02(WigBedProp):
             mid = data[nm][len(data[nm]) // 2]
             lines += [f"Q iv {nm} {mid[0]} {mid[1]}", f"Q iv {nm} {max(0, mid[0] - 1)} {mid[0] + 1}", f"Q iv {nm} {mid[1] - 1} {min(sizes[nm], mid[1] + 20000000)}"]
             out.append(CaseT(f"genome{k}", "bed", [], lines, self.common_tags(o, names, data, tags | {"nt"})))
+        # a supplied schema longer than 64 KiB: returned verbatim like any other
+        for k, nf in enumerate((800,) if tier != "thorough" else (800, 1500)):
+            text = 'table wide\n"A table with many documented columns"\n(\n' + "".join(
+                f'    {"string" if i % 3 else "uint"} column{i};\t"Documentation of column number {i}, as long as such comments are"\n' for i in range(nf)) + ")\n"
+            lines = ["OPT compress=0 ips=1024 bs=256 zooms=none pass=" + str(1 + k % 2) + " src=iter sort=all", "CHROM chr1 1000", "CHROM chr2 500",
+                     "E chr1 5 9 -", "E chr1 7 20 -", "E chr2 1 3 -", "AUTOSQL " + text.encode().hex(), "Q iv chr1 0 1000", "Q iv chr2 0 500"]
+            out.append(CaseT(f"longschema{k}", "bed", [], lines, {"schema_over_64KiB", "multi_chrom", "nt", "bed"}))
         for k in range(8 if tier == "thorough" else 2):
             out.append(bbgen.short_dest_case(rng.fork(f"shortdest{k}"), f"shortdest{k}", True))
         return out
